@@ -277,13 +277,25 @@ def segmentation(ctx):
         ife = [n for n in ast.walk(pb) if isinstance(n, ast.IfExp)]
         ok = len(ife) == 1 and norm(ife[0].body) == "struct.pack('<H', self.sdu_length)" and norm(ife[0].test).endswith('SegmentationAndReassembly.START') and norm(ife[0].test).startswith('self.sar ==') and norm(ife[0].orelse) == "b''"
         R.check(ok, rule, f'{ERTM}._PendingPdu.__bytes__ | SDU length only with START', "2-byte '<H' SDU length iff sar == START", 'SDU length field is not written exactly for START segments', p.loc(pb))
-    skips = {}
-    for n in walk_local(onp):
-        if isinstance(n, ast.If) and 'control_field.sar ==' in norm(n.test) and norm(n.test).endswith('.START'):
-            b = [slice_parts(x.value) for x in n.body if isinstance(x, ast.AugAssign)]
-            e = [slice_parts(x.value) for x in n.orelse if isinstance(x, ast.AugAssign)]
-            skips = {'start': b, 'other': e}
-    R.check(skips == {'start': [('pdu', '4', None)], 'other': [('pdu', '2', None)]}, rule, f'{ERTM}.on_pdu | header skip', 'START skips control(2)+length(2), others skip control(2)', f'payload offsets on receive: {skips}', p.loc(onp))
+    # every write of received payload into the reassembly buffer: which segment kinds reach it (guards), at which offset
+    # it cuts the frame, and whether it starts the buffer afresh or appends
+    writes = []
+    for st in walk_local(onp):
+        tgt = st.targets[0] if isinstance(st, ast.Assign) and len(st.targets) == 1 else st.target if isinstance(st, ast.AugAssign) else None
+        if tgt is None or dotted(tgt) != 'self._in_sdu' or slice_parts(st.value) is None or slice_parts(st.value)[0] != 'pdu':
+            continue
+        kinds = {'START', 'UNSEGMENTED', 'CONTINUATION', 'END'}
+        for t, pol in paths.flat_guards(st, stop=onp):
+            tt = norm(t)
+            if 'control_field.sar ==' in tt or '== control_field.sar' in tt:
+                k = tt.rsplit('.', 1)[-1]
+                kinds = (kinds & {k}) if pol else (kinds - {k})
+        writes.append((kinds, slice_parts(st.value)[1], isinstance(st, ast.Assign), st))
+    covered = set().union(*[k for k, _, _, _ in writes]) if writes else set()
+    off_ok = all(off == ('4' if k == {'START'} else '2') and 'START' not in (k - {'START'}) for k, off, _, _ in writes)
+    R.check(bool(writes) and covered == {'START', 'UNSEGMENTED', 'CONTINUATION', 'END'} and off_ok, rule, f'{ERTM}.on_pdu | header skip', 'START skips control(2)+length(2), others skip control(2)', f'payload offsets on receive: {[(sorted(k), off) for k, off, _, _ in writes]}', p.loc(onp))
+    fresh_ok = all(fresh == (k <= {'START', 'UNSEGMENTED'}) for k, _, fresh, _ in writes)
+    R.check(bool(writes) and fresh_ok, rule, f'{ERTM}.on_pdu | a frame that starts an SDU starts the buffer', 'START / UNSEGMENTED assign, CONTINUATION / END append', 'a START or UNSEGMENTED I-frame is appended to whatever was being reassembled (or a continuation replaces it): an SDU the peer never finished is delivered in front of the next one', p.loc(onp))
     deliver = [n for n in walk_local(onp) if isinstance(n, ast.If) and 'control_field.sar in' in norm(n.test)]
     ok = len(deliver) == 1 and '.END' in norm(deliver[0].test) and '.UNSEGMENTED' in norm(deliver[0].test) and any(dotted(c.func) == 'self.channel.on_sdu' for c in calls_in(deliver[0])) and any(isinstance(x, ast.Assign) and any(dotted(t) == 'self._in_sdu' or (isinstance(t, ast.Tuple) and any(dotted(e_) == 'self._in_sdu' for e_ in t.elts)) for t in x.targets) for x in deliver[0].body)
     R.check(ok, rule, f'{ERTM}.on_pdu | delivery', 'SDU delivered and buffer reset on END/UNSEGMENTED', 'SDU delivery condition changed', p.loc(onp))
